@@ -2,7 +2,10 @@ module verifharness
 
 go 1.24.0
 
-require github.com/pion/webrtc/v4 v4.0.0
+require (
+	github.com/pion/rtp v1.10.5
+	github.com/pion/webrtc/v4 v4.0.0
+)
 
 require (
 	github.com/google/uuid v1.6.0 // indirect
@@ -14,7 +17,6 @@ require (
 	github.com/pion/mdns/v2 v2.1.0 // indirect
 	github.com/pion/randutil v0.1.0 // indirect
 	github.com/pion/rtcp v1.2.17 // indirect
-	github.com/pion/rtp v1.10.5 // indirect
 	github.com/pion/sctp v1.11.1 // indirect
 	github.com/pion/sdp/v3 v3.0.19 // indirect
 	github.com/pion/srtp/v3 v3.0.13 // indirect
